@@ -657,7 +657,8 @@ class TFLiteSemantic:
         for idx in range(len(input_shape)):
             # If the i:th bit in the mask is not set then the value in offset_tens[i] should be used, otherwise it
             # should be ignored
-            if (offset_mask & (1 << idx)) == 0:
+            # (begin / end may be shorter than the rank of the input: the missing dimensions are taken whole)
+            if (offset_mask & (1 << idx)) == 0 and idx < len(offset_tens.values):
                 offsets[idx] = offset_tens.values[idx]
                 if offsets[idx] < 0:
                     # Convert negative indexing to positive ones
